@@ -1,4 +1,4 @@
-import Rawr.Proofs.RustTextAgree_GetFen
+import Rawr.Proofs.RustTextAgree_GetFenRules
 import Rawr.Proofs.RustTextAgree_Uci
 import Rawr.Props.C03_rules
 /-!
@@ -27,20 +27,10 @@ theorem movesOnBoard_of_valid {p : Position} (hV : ValidPos p = true) : MovesOnB
   have ok := gen_shape_valid p hV g hg
   exact ⟨ok.src_lt, ok.dst_lt⟩
 
-theorem fenPrintable_of_valid {p : Position} (hV : ValidPos p = true) : FenPrintable p := by
-  have F := vfacts_of_valid hV
-  simp only [ValidPos, Bool.and_eq_true, decide_eq_true_eq] at hV
-  obtain ⟨⟨⟨⟨⟨_, h0⟩, h1⟩, h2⟩, h3⟩, _⟩ := hV
-  exact ⟨fun e he => (F.ep e he).1, fun _ => h0, fun _ => h1, fun _ => h2, fun _ => h3⟩
-
 /-- `Mv::to_uci` on the generated moves of a valid position. -/
 theorem agree_to_uci_rules (p : Position) (hV : ValidPos p = true) (m : Mv) (hm : m ∈ legalMoves p) :
     R.to_uci m p = some (toUciChars p m) :=
   agree_to_uci m p (movesOnBoard_of_valid hV m hm).1 (movesOnBoard_of_valid hV m hm).2
-
-/-- `get_fen` on valid positions (both arithmetics). -/
-theorem agree_get_fen_rules (ar : Arith) (p : Position) (hV : ValidPos p = true) : R.get_fen ar p = getFen p :=
-  agree_get_fen ar p (fenPrintable_of_valid hV)
 
 theorem VE_mono (n : Nat) (p : Position) (h : VE (n + 1) p) : VE n p := by
   obtain ⟨hV, hE, hh, hf⟩ := h
@@ -96,6 +86,5 @@ example (ar : Arith) (s : UState) (hs : s.pos.frc = false) (hist0 : List BB) :
 end Rawr
 
 #print axioms Rawr.agree_to_uci_rules
-#print axioms Rawr.agree_get_fen_rules
 #print axioms Rawr.agree_moves_rules
 #print axioms Rawr.agree_position_rules
